@@ -79,6 +79,7 @@ type Output struct {
 	PureCalls   []*PureCall `json:"pure_calls"`
 	PureMethods []string    `json:"pure_methods"`   // the table pureMethods
 	PurePkgFunc []string    `json:"pure_pkg_funcs"` // the "pure" entries of pkgFuncs
+	PureGovPkgs []string    `json:"pure_gov_pkgs"`  // governance packages (govPkgs) listed in purePkgs: every function of them is dropped
 }
 
 // PureCall is one call site the extractor drops from the model as read-only.
